@@ -326,6 +326,7 @@ def placement(path, tags):
 
 
 SAFE = b"abcdxyz01._-"
+LD_NAME_CHARS = b"abcdefghijklmnopqrstuvwxyzABCDEFGHIJKLMNOPQRSTUVWXYZ0123456789._-*?[]!^"
 
 
 def gen_link_case(r):
@@ -343,7 +344,8 @@ def gen_link_case(r):
         bad = b" ()\t\n;{}\"',=/\\"
         for _try in range(20):
             pat = generalise(r, base[0], r.choice([0, 0, 3, 4, 5]))
-            if pat and b"**" not in pat and not any(c in pat for c in bad):
+            # only characters GNU ld's script lexer passes through unchanged (it silently drops e.g. a backtick, which changes the pattern)
+            if pat and b"**" not in pat and not any(c in pat for c in bad) and all(c in LD_NAME_CHARS for c in pat):
                 break
         else:
             pat = base[0]
